@@ -18,6 +18,12 @@ func (bg *BondgoCheck) Expr_eval(n ast.Expr) ([]VarCell, bool) {
 		if exptype.Kind == token.INT {
 			value := exptype.Value
 
+			// Go spells integers in ways the assembler reads differently or not at all (0177, 0o17, 0B101, 1_000):
+			// the immediate is written in decimal
+			if intval, err := strconv.ParseUint(value, 0, 64); err == nil {
+				value = strconv.FormatUint(intval, 10)
+			}
+
 			gent, _ := Type_from_string(bg.Basic_type)
 
 			bg.Reqs <- VarReq{REQ_NEW, bg.CurrentRoutine, VarCell{gent, REGISTER, 0, 0, 0, 0, 0, 0}}
